@@ -554,6 +554,10 @@ func (fc *FnCtx) execInstr(ins ssa.Instruction) (terminated bool, err error) {
 			return false, err
 		}
 		fc.setEdges(x.Block(), c.T)
+		if fc.parent == nil && c.T != "true" && c.T != "false" && fc.heavyBranch(x.Block()) {
+			b := x.Block()
+			fc.vc.splitCands = append(fc.vc.splitCands, splitCand{term: c.T, tag: b.Index, both: []int{b.Succs[0].Index, b.Succs[1].Index}})
+		}
 		return false, nil
 	case *ssa.Jump:
 		fc.setEdges(x.Block(), "true")
@@ -957,6 +961,8 @@ func (fc *FnCtx) globalConst(g *ssa.Global) Val {
 			fc.vc.assertGlobal("(> " + n + " 0)")
 			fc.vc.declareFun("cause", []string{"Int"}, "Int")
 			fc.vc.assertGlobal(mkEq("(cause "+n+")", n))
+			fc.vc.declareFun("uf.errOrigin", []string{"Int"}, "Int")
+			fc.vc.assertGlobal(mkEq("(uf.errOrigin "+n+")", fc.vc.originID("package-level sentinel")))
 			for o := range fc.vc.ufuncs {
 				if strings.HasPrefix(o, "globerr.") {
 					fc.vc.assertGlobal("(distinct " + n + " " + o[8:] + ")")
@@ -1648,6 +1654,106 @@ func usesRecover(fn *ssa.Function) bool {
 		if check(a) {
 			return true
 		}
+	}
+	return false
+}
+
+// heavyBranch: at least one arm of the branch (the blocks dominated by a successor) changes modelled state or
+// calls a function under contract; only such branch conditions are worth a case split.
+func (fc *FnCtx) heavyBranch(b *ssa.BasicBlock) bool {
+	var heavyBlock func(x *ssa.BasicBlock, depth int) bool
+	heavyBlock = func(x *ssa.BasicBlock, depth int) bool {
+		for _, ins := range x.Instrs {
+			switch i := ins.(type) {
+			case *ssa.Store, *ssa.MapUpdate, *ssa.Send, *ssa.Select, *ssa.MakeSlice, *ssa.MakeMap:
+				if st, ok := i.(*ssa.Store); ok {
+					if a, ok := st.Addr.(*ssa.Alloc); ok && immutableLocalStruct(a) {
+						continue
+					}
+				}
+				return true
+			case ssa.CallInstruction:
+				c := i.Common()
+				if bi, ok := c.Value.(*ssa.Builtin); ok {
+					if bi.Name() == "append" || bi.Name() == "delete" || bi.Name() == "close" || bi.Name() == "copy" {
+						return true
+					}
+					continue
+				}
+				name := calleeName(c)
+				if effectFree(name) {
+					continue
+				}
+				if fc.callIsLight(c, 0) {
+					continue
+				}
+				return true
+			}
+		}
+		if depth < 40 {
+			for _, d := range x.Dominees() {
+				if heavyBlock(d, depth+1) {
+					return true
+				}
+			}
+		}
+		return false
+	}
+	for _, s := range b.Succs {
+		if s.Idom() == b && heavyBlock(s, 0) {
+			return true
+		}
+	}
+	return false
+}
+
+// callIsLight: the call cannot change modelled state in a way that matters for case splitting: a contract with
+// "modifies nothing", a modelled library function without heap effect, or an inlinable callee whose body is light.
+func (fc *FnCtx) callIsLight(c *ssa.CallCommon, depth int) bool {
+	name := calleeName(c)
+	if c.IsInvoke() {
+		con := fc.prog.Cons.Iface[name]
+		return con != nil && !con.ModAll && len(con.Modifies) == 0
+	}
+	f, ok := c.Value.(*ssa.Function)
+	if !ok {
+		return false
+	}
+	if con := fc.prog.Cons.ByFunc[f]; con != nil {
+		return !con.ModAll && len(con.Modifies) == 0
+	}
+	if _, ok := builtinModels[name]; ok {
+		return len(builtinMods[name]) == 0 || name == "(*github.com/tokenized/pkg/wire.BlockHeader).BlockHash"
+	}
+	if depth < 3 && fc.inlinableStatic(f) {
+		for _, b := range f.Blocks {
+			for _, ins := range b.Instrs {
+				switch i := ins.(type) {
+				case *ssa.Store:
+					if a, ok := i.Addr.(*ssa.Alloc); ok && immutableLocalStruct(a) {
+						continue
+					}
+					return false
+				case *ssa.MapUpdate, *ssa.Send, *ssa.Select:
+					return false
+				case ssa.CallInstruction:
+					cc := i.Common()
+					if bi, ok := cc.Value.(*ssa.Builtin); ok {
+						if bi.Name() == "append" || bi.Name() == "delete" || bi.Name() == "close" || bi.Name() == "copy" {
+							return false
+						}
+						continue
+					}
+					if effectFree(calleeName(cc)) {
+						continue
+					}
+					if !fc.callIsLight(cc, depth+1) {
+						return false
+					}
+				}
+			}
+		}
+		return true
 	}
 	return false
 }
